@@ -118,7 +118,7 @@ Print Assumptions C10_try_send2_prefix_before_fix_refuted.
 
 (* The rule for batches of at most 20 datagrams holds for either arithmetic. *)
 Theorem C10_try_send2_prefix_partial :
-  forall (s : st) (lens : list N) (flags : Z) (addr : nat) (s' : st) (ev : list event) (n : Z),
+  forall (s : st) (lens : list (N * N)) (flags : Z) (addr : nat) (s' : st) (ev : list event) (n : Z),
     (length lens <= 20)%nat ->
     udp_try_send2 sendmsgv_fixed s lens flags addr = (s', ev) ->
     In (ETry2 (next_seq s) (length lens) n) ev -> 0 < n ->
@@ -163,7 +163,7 @@ Example C10_example_send :
   forall fx,
   let tr := snd (run fx (fun _ => [OGet]) (fun _ _ => [])
                      (init false false [SErr 11; SErr 1; SRet 2; SErr 11] [] [])
-                     [OSend 5 1%nat; OSend 6 1%nat; OSend 7 1%nat; ORun false true; OSend 8 1%nat;
+                     [OSend 5 1%nat 1; OSend 6 1%nat 3; OSend 7 1%nat 1024; ORun false true; OSend 8 1%nat 1;
                       OClose; ORun false false]) in
   accepts tr = true /\ handed tr = [1; 2]%nat /\
   cbs tr = [0; 1; 2; 3]%nat /\
@@ -212,7 +212,29 @@ Proof. vm_compute. reflexivity. Qed.
 Example C10_example_destinations :
   forall fx,
   let tr := snd (run fx (fun _ => []) (fun _ _ => []) (init false false [SRet 9; SRet 9] [] [])
-                     [OSend 9 2%nat; ORun false true; OConnect 1%nat; OSend 9 0%nat; ORun false true]) in
-  In (EName [(0, 2)]%nat) tr /\ In (EName [(1, 0)]%nat) tr /\
+                     [OSend 9 2%nat 1; ORun false true; OConnect 1%nat; OSend 9 0%nat 2; ORun false true]) in
+  In (EName [(0%nat, 2%nat, 1%N)]) tr /\ In (EName [(1%nat, 0%nat, 2%N)]) tr /\
   delivered 0 [] tr = [(0, 2); (1, 1)]%nat.
+Proof. intros [|]; vm_compute; intuition. Qed.
+
+(* The kernel's rule is part of the OS oracle of the model: a message of more than IOV_MAX
+   (1024) buffers is answered EMSGSIZE.  Consequence, for every batch, every kernel answer
+   list and both index arithmetics: whatever uv__udp_sendmsgv (the path of uv_udp_send,
+   uv_udp_try_send2 and, through uv__udp_sendmsg1, uv_udp_try_send) hands to the OS is a
+   datagram of the batch with at most IOV_MAX buffers - so by C10_status the request of a longer
+   datagram never reports 0 and try_send/try_send2 never count it as sent. *)
+Theorem C10_oversized_datagram_not_sent :
+  forall fx ds o res ev o',
+  sendmsgv fx ds o = (res, ev, o') ->
+  Forall (fun sq => exists d, In d ds /\ d_seq d = sq /\ (d_nb d <= IOV_MAX)%N) (handed ev).
+Proof. exact oversized_not_handed. Qed.
+Print Assumptions C10_oversized_datagram_not_sent.
+
+(* 1025 one-byte buffers: the kernel refuses, the callback reports UV_EMSGSIZE, nothing is
+   handed over; 1024 buffers go out *)
+Example C10_example_iov_max :
+  forall fx,
+  let tr := snd (run fx (fun _ => []) (fun _ _ => []) (init false false [SRet 1025; SRet 1024] [] [])
+                     [OSend 1025 1%nat 1025; OSend 1024 1%nat 1024; ORun false true]) in
+  In (ESys1 0 (SErr 90)) tr /\ In (ECb 0 (-90)) tr /\ In (ECb 1 0) tr /\ handed tr = [1%nat].
 Proof. intros [|]; vm_compute; intuition. Qed.
